@@ -823,6 +823,20 @@ fn main() {
                     other => fail(format!("interior_point of {:?} = {:?}: not strictly inside", p, other)),
                 }
             }
+            // multi-part geometries return a member's own point: the widest polygon's, the point nearest the centroid
+            use geo_types::{MultiPoint, MultiPolygon, Point};
+            let sq = |x0: f64, y0: f64, x1: f64, y1: f64| Polygon::new(ring(vec![(x0, y0), (x1, y0), (x1, y1), (x0, y1), (x0, y0)]), vec![]);
+            for members in [vec![sq(0.0, 0.0, 2.0, 2.0), sq(10.0, 0.0, 18.0, 4.0), sq(30.0, 0.0, 33.0, 3.0)], vec![sq(10.0, 0.0, 18.0, 4.0), sq(0.0, 0.0, 2.0, 2.0)]] {
+                let mp = MultiPolygon(members);
+                match mp.interior_point() {
+                    Some(q) if q == Point::new(14.0, 2.0) && mp.contains(&q) => {}
+                    other => fail(format!("multi-polygon interior_point = {:?}, expected the middle of the widest member", other)),
+                }
+            }
+            let pts = MultiPoint(vec![Point::new(5.0, 1.0), Point::new(1.0, 3.0), Point::new(3.0, 2.0)]);
+            if pts.interior_point() != Some(Point::new(3.0, 2.0)) || MultiPoint::<f64>(vec![]).interior_point().is_some() {
+                fail(format!("multi-point interior_point = {:?}", pts.interior_point()));
+            }
             println!("ok interior point scan line");
         }
         "position_assembly" => {
